@@ -194,9 +194,9 @@ func init() {
 func c20Controller(r *ev.Rec) {
 	depth := 6
 	if r.Tier == "thorough" {
-		depth = 8
+		depth = 7
 	}
-	ops := []string{"success", "failure", "restart"}
+	ops := []string{"success", "failure", "restart", "nodeclass-change", "nodepool-change"}
 	dims := make([]int, depth)
 	for i := range dims {
 		dims[i] = len(ops)
@@ -214,6 +214,11 @@ func c20Controller(r *ev.Rec) {
 		var window []bool
 		expect := "Unknown"
 		var hist []string
+		{ // controller start-up: every NodePool is reconciled once (observed generations in sync, condition Unknown)
+			cur := &v1.NodePool{}
+			must(w.Raw.Get(w.Ctx, client.ObjectKey{Name: "default"}, cur))
+			_, _ = health.Reconcile(w.Ctx, cur)
+		}
 		for k, op := range d {
 			hist = append(hist, ops[op])
 			name := fmt.Sprintf("n%d", k)
@@ -234,6 +239,23 @@ func c20Controller(r *ev.Rec) {
 				default:
 					window = nil
 				}
+			case "nodeclass-change", "nodepool-change":
+				// a spec change of the NodePool or its NodeClass resets the health signal: condition Unknown, window empty
+				if ops[op] == "nodeclass-change" {
+					nc := world.NodeClass()
+					must(w.Raw.Get(w.Ctx, client.ObjectKeyFromObject(nc), nc))
+					nc.Generation++
+					w.EnvUpdate(nc)
+				} else {
+					cur := &v1.NodePool{}
+					must(w.Raw.Get(w.Ctx, client.ObjectKey{Name: "default"}, cur))
+					cur.Generation++
+					w.EnvUpdate(cur)
+				}
+				cur := &v1.NodePool{}
+				must(w.Raw.Get(w.Ctx, client.ObjectKey{Name: "default"}, cur))
+				_, _ = health.Reconcile(w.Ctx, cur)
+				window, expect = nil, "Unknown"
 			case "success", "failure":
 				since := w.Clock.Now()
 				if ops[op] == "failure" {
